@@ -7,6 +7,7 @@ link/monitor bookkeeping symmetry.
 """
 import re
 from ..families import describe
+from ..ranges import canon
 from ..core import callee_of, callee_names, is_call_to, unwrap, receiver_root, root_fields, fold
 
 REG = 'edp_node::registry::ProcessRegistry'
@@ -280,6 +281,23 @@ def run(ctx):
     handle_send_lossless(ctx, 'C18.4-lossless-mailbox')
 
     # ---------------- clause 4: single consumer, one handler call per message --------------------------------
+    ctx.rule('C18.4-mailbox-fifo', 'between the channel and the handler nothing reorders messages: no function of the mailbox module sorts, reverses, swaps, rotates a queue of messages, takes from its back or inserts at its front - '
+             'the messages of one sender are handled in the order they were accepted', floor=0)
+    REORDER18 = ('sort', 'sort_by', 'sort_by_key', 'sort_unstable', 'sort_unstable_by', 'sort_unstable_by_key', 'sort_by_cached_key', 'reverse', 'swap', 'rotate_left', 'rotate_right', 'pop_back', 'push_front', 'swap_remove',
+                 'swap_remove_back', 'swap_remove_front', 'select_nth_unstable', 'select_nth_unstable_by_key', 'partition', 'rev', 'make_contiguous', 'retain', 'dedup', 'insert')
+    n_mf = 0
+    for q in sorted(ctx.F.bodies):
+        if not q.startswith('edp_node::mailbox::') or ctx.F.bodies[q]['kind'] not in ('Fn', 'AssocFn', 'Closure'):
+            continue
+        MB = P.B(q)
+        for bb, t in MB.calls():
+            nm = callee_of(t)[0] or ''
+            if bb in MB.live_blocks() and nm.rsplit('::', 1)[-1] in REORDER18 and ('Vec' in nm or 'slice' in nm or 'VecDeque' in nm or 'vec_deque' in nm or 'Iterator' in nm or 'LinkedList' in nm or 'BinaryHeap' in nm):
+                n_mf += 1
+                ctx.bad('C18.4-mailbox-fifo', '%s:%s' % (q.split('::{')[0].rsplit('::', 1)[-1], nm.rsplit('::', 1)[-1]), '%s calls %s on a queue of messages: what the handler sees is no longer the order in which the messages were accepted'
+                        % (q.split('::{')[0].rsplit('::', 1)[-1], nm.rsplit('::', 1)[-1]), ctx.where(MB, bb), key='WHO:%s:reorders-messages' % q.split('::{')[0])
+    if n_mf == 0:
+        ctx.ok('C18.4-mailbox-fifo', 'mailbox', 'no reordering operation in the mailbox module')
     ctx.rule('C18.4-one-handler-call', 'the process task is the single consumer of its mailbox and calls handle_message exactly once per received message', floor=1)
     if B is not None:
         recvs = [(bb, t) for bb, t in B.calls() if is_call_to(t, 'edp_node::mailbox::Mailbox::recv')]
@@ -331,7 +349,13 @@ def run(ctx):
                         o1 = unwrap(Bg.origin(st['rv']['ops'][1]))
                         if (has_fields(p0, 'reference') or (b0[0] in ('local', 'arg') and Bg.local_name(b0[1]) == 'reference')):
                             tup_ok = True
-            if to_caller and tup_ok:
+            hb, hp = unwrap(Bg.origin(sends[0][1]['args'][0]))
+            looked_up = hb is not None and hb[0] == 'call' and str(hb[1]) == REG + '::get' and hb[2] == gb
+            if to_caller and tup_ok and not looked_up:
+                ctx.bad('C18.5-gen-reply', 'handle_gen_call', 'the handle the reply is sent on is not (only) what registry.get(from_pid) answered in this call (%s): a handle remembered from an earlier call outlives its process - '
+                        'the send fails, the error leaves handle_message and the server goes down with calls still waiting' % (describe(Bg, canon(Bg, sends[0][1]['args'][0]))[:70],), ctx.where(Bg, sends[0][0]),
+                        key='PROV:gen_server:reply-handle-not-looked-up')
+            elif to_caller and tup_ok:
                 ctx.ok('C18.5-gen-reply', 'handle_gen_call', 'one send of {Reference(reference), reply} to registry.get(from_pid)', ctx.where(Bg, sends[0][0]))
             else:
                 ctx.bad('C18.5-gen-reply', 'handle_gen_call', 'reply not addressed to the caller / not tagged with the caller\'s reference (to_caller=%s tuple=%s)' % (to_caller, tup_ok),
